@@ -5,6 +5,7 @@ COQFILES := $(shell grep '\.v$$' coq/_CoqProject)
 setup: gen coq extract harness
 gen:
 	python3 tools/gen_constants.py
+	python3 tools/c2gallina.py
 coq/Makefile.coq: coq/_CoqProject
 	cd coq && coq_makefile -f _CoqProject -o Makefile.coq
 coq: gen coq/Makefile.coq
